@@ -72,6 +72,9 @@ pub enum Ev {
     Leave(u8),
     /// the node syncs the document again (coordination part of `start_sync`)
     Join(u8),
+    /// the application calls the real `start_sync` again for the document the node is already
+    /// syncing (the normal way to add peers; here without peers): nothing about the pair changes
+    StartAgain(u8),
 }
 
 #[derive(Debug, Clone, PartialEq, Eq, PartialOrd, Ord)]
@@ -212,6 +215,8 @@ fn with_pair<T>(f: impl FnOnce(&mut Pair) -> T) -> T {
         let mut p = p.borrow_mut();
         if p.is_none() {
             set_dial_log(true);
+            // no swarm traffic: `start_sync` / `join_peers` skip the gossip topic (hook)
+            iroh_docs::engine::verif::set_gossip_joins_disabled(true);
             let pair = block_on(async {
                 let mut a = make_node(0x21).await.expect("node a");
                 let mut b = make_node(0x22).await.expect("node b");
@@ -220,6 +225,10 @@ fn with_pair<T>(f: impl FnOnce(&mut Pair) -> T) -> T {
                 // coordination state
                 a.actor.verif_start_sync(ns(), vec![]).await.expect("start_sync");
                 b.actor.verif_start_sync(ns(), vec![]).await.expect("start_sync");
+                // each node knows the other as a useful peer of the document from the start
+                // (successful sessions register it anyway): a later `start_sync` dials it
+                a._sync.register_useful_peer(ns(), *b.id.as_bytes()).await.expect("register");
+                b._sync.register_useful_peer(ns(), *a.id.as_bytes()).await.expect("register");
                 Pair { nodes: [a, b] }
             });
             *p = Some(pair);
@@ -292,6 +301,7 @@ struct Model {
     /// incremented at every leave: completions of dials from an earlier epoch are stale
     epoch: [u32; 2],
     leaves: u32,
+    restarts: u32,
 }
 
 impl Model {
@@ -360,6 +370,7 @@ fn exec(hist: &[Ev], max_dials: usize, max_leaves: u32, mode: u8) -> Option<(Bad
             joined: [true; 2],
             epoch: [0; 2],
             leaves: 0,
+            restarts: 0,
         };
         let mut bad: Bad = vec![];
         let mut observed = String::new();
@@ -369,13 +380,33 @@ fn exec(hist: &[Ev], max_dials: usize, max_leaves: u32, mode: u8) -> Option<(Bad
             // which node's handler runs (for S3 accounting) and whether it is a completion
             let mut completion_at: Option<u8> = None;
             match *ev {
-                Ev::Trigger(n, reason) => {
+                Ev::Trigger(..) | Ev::StartAgain(..) => {
+                    // `StartAgain`: the application calls the real `start_sync` for the document
+                    // the node is already syncing. The peer is among the document's stored useful
+                    // peers (set-up), so this is a DirectJoin trigger that arrives through
+                    // `start_sync` -> `join_peers` and must be treated exactly like one.
+                    let (n, reason, again) = match *ev {
+                        Ev::Trigger(n, r) => (n, r, false),
+                        Ev::StartAgain(n) => (n, Reason::DirectJoin, true),
+                        _ => unreachable!(),
+                    };
+                    if again && (mode & 4 == 0 || !m.joined[n as usize] || m.restarts >= 1) {
+                        return None;
+                    }
                     if m.dials.len() >= max_dials {
                         return None;
                     }
+                    if again {
+                        m.restarts += 1;
+                    }
                     let was_busy = m.busy(n);
                     let peer = ids[1 - n as usize];
-                    if via_messages && reason != Reason::DirectJoin {
+                    if again {
+                        let res = block_on_park(pair.nodes[n as usize].actor.verif_start_sync(ns(), vec![]));
+                        if let Err(e) = res {
+                            step_bad.push(("repeated_start_sync_succeeds", json!({}), format!("node {n}: start_sync on a syncing document failed: {e:#}")));
+                        }
+                    } else if via_messages && reason != Reason::DirectJoin {
                         let actor = &mut pair.nodes[n as usize].actor;
                         match reason {
                             Reason::NewNeighbor => {
@@ -817,10 +848,11 @@ fn exec(hist: &[Ev], max_dials: usize, max_leaves: u32, mode: u8) -> Option<(Bad
             .collect();
         live.sort();
         let key = format!(
-            "{:?}{:?}{}|{}|{}|{:?}|n{}|{:?}",
+            "{:?}{:?}{}r{}|{}|{}|{:?}|n{}|{:?}",
             m.joined,
             snaps.iter().map(|s| s.syncing).collect::<Vec<_>>(),
             m.leaves,
+            m.restarts,
             show_snap(&snaps[0]),
             show_snap(&snaps[1]),
             live,
@@ -874,6 +906,9 @@ fn exec(hist: &[Ev], max_dials: usize, max_leaves: u32, mode: u8) -> Option<(Bad
             if m.joined[n as usize] && m.leaves < max_leaves {
                 enabled.push(Ev::Leave(n));
             }
+            if mode & 4 != 0 && m.joined[n as usize] && m.restarts < 1 {
+                enabled.push(Ev::StartAgain(n));
+            }
         }
         for (d, dial) in m.dials.iter().enumerate() {
             match &dial.state {
@@ -922,6 +957,7 @@ fn events(max_dials: usize, all_reasons: bool) -> Vec<Ev> {
     }
     for n in 0..2u8 {
         v.push(Ev::Leave(n));
+        v.push(Ev::StartAgain(n));
     }
     for d in 0..max_dials + 2 {
         v.push(Ev::Deliver(d));
@@ -941,9 +977,9 @@ fn run(ctx: &Ctx, report: &mut Report) {
     // nodes (the only other thing the completion handlers read besides the coordination state)
     // the fourth search delivers triggers and requests as actor messages (mode bit 1)
     let searches: Vec<(usize, u32, u8)> = if ctx.quick() {
-        vec![(3, 0, 0), (3, 1, 0), (3, 0, 1), (2, 1, 2)]
+        vec![(3, 0, 0), (3, 1, 0), (3, 0, 1), (2, 1, 2), (2, 0, 4)]
     } else {
-        vec![(4, 0, 0), (4, 1, 0), (4, 0, 1), (3, 1, 2)]
+        vec![(4, 0, 0), (4, 1, 0), (4, 0, 1), (3, 1, 2), (3, 0, 4)]
     };
     for (max_dials, max_leaves, mode) in searches {
         let queued = mode & 1 != 0;
@@ -951,9 +987,9 @@ fn run(ctx: &Ctx, report: &mut Report) {
         // quick tier: the search with a leave uses two trigger reasons (NewNeighbor and DirectJoin
         // differ only in identity for the coordination code); the other searches use all three
         let evs = events(max_dials, !(ctx.quick() && max_leaves > 0));
-        let tag = if queued { "_download_queued" } else if mode & 2 != 0 { "_via_actor_messages" } else { "" };
+        let tag = if queued { "_download_queued" } else if mode & 2 != 0 { "_via_actor_messages" } else if mode & 4 != 0 { "_start_sync_again" } else { "" };
         report.fact(&format!("events_{max_dials}_dials_{max_leaves}_leaves{tag}"), json!(evs.len()));
-        let depth = 4 * max_dials + 2 + max_leaves as usize;
+        let depth = 4 * max_dials + 2 + max_leaves as usize + (mode & 4 != 0) as usize;
         let mut evals = 0u64;
         let mut nt = 0u64;
         bfs_nd(ctx, report, &evs, depth, 2, if ctx.quick() { 1 } else { 2 }, |h, report, ordinal| {
